@@ -33,7 +33,7 @@ def gen_case(rng, tier, idx):
     if idx % 8 == 7:
         from ..runnerdrive import gen_runner_case
 
-        return gen_runner_case(rng, tier, profile="matching")
+        return gen_runner_case(rng, tier, profile="matching", clipped=(rng.random() < 0.3))
     if idx % 8 in (5, 6):
         c = gen_deep_cancel_history(rng, tier)
         c["drive"] = "direct"
